@@ -978,7 +978,12 @@ func (e *Enc) loopWrites(li *loopInfo) (cells map[*ssa.Alloc]bool, heapAll bool,
 			case *ssa.Select:
 			case *ssa.MakeChan:
 				heapKeys["alloc"] = SInt
-			case *ssa.Defer, *ssa.Go:
+			case *ssa.Go:
+				// spawning a function under contract has no sequential effect (goInstr)
+				if f, ok := ins.Call.Value.(*ssa.Function); !ok || ins.Call.IsInvoke() || e.W.Specs.Funcs[funcKey(f)] == nil {
+					heapAll = true
+				}
+			case *ssa.Defer:
 				heapAll = true
 			case *ssa.Alloc:
 				if ins.Heap {
